@@ -53,6 +53,7 @@ CEnd(c, e) ==
       v == (IF e.panicked /\ ~unset THEN {<<"C20", "panic">>, <<"C03", "call-panicked">>}
                                          \cup (IF mac THEN {<<"C17", "macro-panicked-although-global-client-is-set">>} ELSE {})
             ELSE {})
+           \cup (IF e.panicked /\ ~unset /\ ~cur.valid THEN {<<"C02", "invalid-value-panicked-instead-of-invalid-input">>} ELSE {})
            \cup (IF unset /\ ~e.panicked THEN {<<"C17", "macro-did-not-panic-without-global-client">>} ELSE {})
            \cup (IF unset /\ c.emits # <<>> THEN {<<"C17", "macro-emitted-without-global-client">>} ELSE {})
            \cup (IF ~unset /\ ~e.panicked /\ cur.valid /\ Len(c.emits) # 1
